@@ -14,6 +14,8 @@ import (
 	"time"
 
 	"github.com/attestantio/dirk/core"
+	receiverhandler "github.com/attestantio/dirk/services/api/grpc/handlers/receiver"
+	"github.com/attestantio/dirk/services/api/grpc/interceptors"
 	"github.com/attestantio/dirk/services/fetcher"
 	memfetcher "github.com/attestantio/dirk/services/fetcher/mem"
 	staticpeers "github.com/attestantio/dirk/services/peers/static"
@@ -22,6 +24,7 @@ import (
 	"github.com/attestantio/dirk/zzverif/stubs"
 	"github.com/attestantio/dirk/zzverif/vsym"
 	"github.com/herumi/bls-eth-go-binary/bls"
+	pb "github.com/wealdtech/eth2-signer-api/pb/v1"
 	e2types "github.com/wealdtech/go-eth2-types/v2"
 	distributed "github.com/wealdtech/go-eth2-wallet-distributed"
 	keystorev4 "github.com/wealdtech/go-eth2-wallet-encryptor-keystorev4"
@@ -33,6 +36,7 @@ const walletName = "Test"
 
 type node struct {
 	id      uint64
+	handler *receiverhandler.Handler
 	proc    *standardprocess.Service
 	store   e2wtypes.Store
 	enc     e2wtypes.Encryptor
@@ -52,6 +56,11 @@ type cluster struct {
 	hit        bool
 	deliveries []string
 	prevSecret map[uint64]*bls.SecretKey // the last share each sender sent (to someone else)
+	// deliver through the real gRPC receiver handlers (authenticated caller name in the context)
+	viaHandlers bool
+	// a non-peer caller sends every message first (it must be refused and change nothing)
+	stranger                          string
+	strangerRefused, strangerAccepted int
 }
 
 func peerMap(ids []uint64) map[uint64]string {
@@ -98,6 +107,9 @@ func newCluster(ctx context.Context, ids []uint64, timeout time.Duration) *clust
 		)
 		hc.Must(err)
 		n.proc = p
+		h, err := receiverhandler.New(ctx, receiverhandler.WithPeers(peers), receiverhandler.WithProcess(p))
+		hc.Must(err)
+		n.handler = h
 		c.nodes[id] = n
 	}
 	return c
@@ -181,6 +193,9 @@ func (r *router) Prepare(ctx context.Context, recipient *core.Endpoint, account 
 			r.c.hit = false // this kind does not apply to prepare
 		}
 	}
+	if r.c.viaHandlers {
+		return r.hPrepare(ctx, n, account, passphrase, threshold, participants)
+	}
 	return n.proc.OnPrepare(ctx, r.from, account, passphrase, threshold, participants)
 }
 
@@ -200,6 +215,9 @@ func (r *router) Execute(ctx context.Context, recipient *core.Endpoint, account 
 			r.c.hit = false
 		}
 	}
+	if r.c.viaHandlers {
+		return r.hExecute(ctx, n, account)
+	}
 	return n.proc.OnExecute(ctx, r.from, account)
 }
 
@@ -210,6 +228,9 @@ func (r *router) Commit(ctx context.Context, recipient *core.Endpoint, account s
 	}
 	if r.c.tamper(fmt.Sprintf("commit>%d", recipient.ID)) {
 		r.c.hit = false // commit faults are not part of C13's fault family
+	}
+	if r.c.viaHandlers {
+		return r.hCommit(ctx, n, account, confirmationData)
 	}
 	return n.proc.OnCommit(ctx, r.from, account, confirmationData)
 }
@@ -271,6 +292,9 @@ func (r *router) SendContribution(ctx context.Context, recipient *core.Endpoint,
 	}
 	keep := secret
 	r.c.prevSecret[r.from] = &keep
+	if r.c.viaHandlers {
+		return r.hContribute(ctx, n, account, secret, vVec)
+	}
 	return n.proc.OnContribute(ctx, r.from, account, secret, vVec)
 }
 
@@ -314,4 +338,95 @@ func messages(ids []uint64) []string {
 		}
 	}
 	return out
+}
+
+func peerName(ids []uint64, id uint64) string {
+	for k, x := range ids {
+		if x == id {
+			return fmt.Sprintf("signer-test%02d", k+1)
+		}
+	}
+	return "nobody"
+}
+
+func (c *cluster) callerCtx(ctx context.Context, name string) context.Context {
+	return context.WithValue(ctx, &interceptors.ClientName{}, name)
+}
+
+func pbEndpoints(ps []*core.Endpoint) []*pb.Endpoint {
+	out := make([]*pb.Endpoint, len(ps))
+	for k, p := range ps {
+		out[k] = &pb.Endpoint{Id: p.ID, Name: p.Name, Port: p.Port}
+	}
+	return out
+}
+
+func (c *cluster) note(err error) {
+	if err != nil {
+		c.strangerRefused++
+	} else {
+		c.strangerAccepted++
+	}
+}
+
+// handler-level deliveries (what the gRPC sender and receiver do between two instances)
+func (r *router) hPrepare(ctx context.Context, n *node, account string, passphrase []byte, threshold uint32, participants []*core.Endpoint) error {
+	req := &pb.PrepareRequest{Account: account, Passphrase: passphrase, Threshold: threshold, Participants: pbEndpoints(participants)}
+	if r.c.stranger != "" {
+		_, err := n.handler.Prepare(r.c.callerCtx(ctx, r.c.stranger), req)
+		r.c.note(err)
+	}
+	_, err := n.handler.Prepare(r.c.callerCtx(ctx, peerName(r.c.ids, r.from)), req)
+	return err
+}
+
+func (r *router) hExecute(ctx context.Context, n *node, account string) error {
+	req := &pb.ExecuteRequest{Account: account}
+	if r.c.stranger != "" {
+		_, err := n.handler.Execute(r.c.callerCtx(ctx, r.c.stranger), req)
+		r.c.note(err)
+		_, err = n.handler.Abort(r.c.callerCtx(ctx, r.c.stranger), &pb.AbortRequest{Account: account})
+		r.c.note(err)
+	}
+	_, err := n.handler.Execute(r.c.callerCtx(ctx, peerName(r.c.ids, r.from)), req)
+	return err
+}
+
+func (r *router) hCommit(ctx context.Context, n *node, account string, data []byte) ([]byte, []byte, error) {
+	req := &pb.CommitRequest{Account: account, ConfirmationData: data}
+	if r.c.stranger != "" {
+		_, err := n.handler.Commit(r.c.callerCtx(ctx, r.c.stranger), req)
+		r.c.note(err)
+	}
+	res, err := n.handler.Commit(r.c.callerCtx(ctx, peerName(r.c.ids, r.from)), req)
+	if err != nil {
+		return nil, nil, err
+	}
+	return res.GetPublicKey(), res.GetConfirmationSignature(), nil
+}
+
+func (r *router) hContribute(ctx context.Context, n *node, account string, secret bls.SecretKey, vVec []bls.PublicKey) (bls.SecretKey, []bls.PublicKey, error) {
+	req := &pb.ContributeRequest{Account: account, Secret: secret.Serialize()}
+	for k := range vVec {
+		req.VerificationVector = append(req.VerificationVector, vVec[k].Serialize())
+	}
+	if r.c.stranger != "" {
+		_, err := n.handler.Contribute(r.c.callerCtx(ctx, r.c.stranger), req)
+		r.c.note(err)
+	}
+	res, err := n.handler.Contribute(r.c.callerCtx(ctx, peerName(r.c.ids, r.from)), req)
+	if err != nil {
+		return bls.SecretKey{}, nil, err
+	}
+	var back bls.SecretKey
+	if err := back.Deserialize(res.GetSecret()); err != nil {
+		return bls.SecretKey{}, nil, err
+	}
+	vv := make([]bls.PublicKey, len(res.GetVerificationVector()))
+	for k, b := range res.GetVerificationVector() {
+		if err := vv[k].Deserialize(b); err != nil {
+			return bls.SecretKey{}, nil, err
+		}
+	}
+	return back, vv, nil
 }
